@@ -177,6 +177,11 @@ def main : IO Unit := do
     (vtag c v ++ s!" clonePanicAt={repr c.clonePanicAt} n={i}", showM (RsM.toModel (Gen.Fn.vec_extend_with c i (el 9) (v, w0))), showM (V.extendWith c v i (el 9) w0)))) out
   out := add (firstDiff "Vec::resize" ((vci.flatMap fun (c, v, i) => [none, some 0, some 1].map fun cp => ({ c with clonePanicAt := cp }, v, i)).map fun (c, v, i) =>
     (vtag c v ++ s!" clonePanicAt={repr c.clonePanicAt} new_len={i}", showM (RsM.toModel (Gen.Fn.vec_resize c i (el 9) (v, w0))), showM (V.resize c v i (el 9) w0)))) out
+  let dvecs : List V.VS := vecs ++ [⟨[some ⟨1, 5⟩, some ⟨2, 5⟩, some ⟨3, 7⟩, some ⟨4, 7⟩], 4, 4⟩, ⟨[some ⟨1, 5⟩, some ⟨2, 6⟩, some ⟨3, 5⟩, some ⟨4, 5⟩, some ⟨5, 5⟩, none], 5, 6⟩]
+  let cbs : List (String × (Nat → V.Elem → V.Elem → Option Bool)) := [("same-val", fun _ a b => some (a.val == b.val)), ("never", fun _ _ _ => some false),
+    ("always", fun _ _ _ => some true), ("panic@1", fun k a b => if k == 1 then none else some (a.val == b.val)), ("alternate", fun k _ _ => some (k % 2 == 0))]
+  out := add (firstDiff "Vec::dedup_by" ((vcfgs.flatMap fun c => dvecs.flatMap fun v => cbs.map fun cb => (c, v, cb)).map fun (c, v, (cbn, cb)) =>
+    (vtag c v ++ s!" cb={cbn}", showM (RsM.toModel (Gen.Fn.vec_dedup_by c cb (v, w0))), showM (V.dedupBy c v cb w0)))) out
   out := add (firstDiff "Vec::reserve" (vci.map fun (c, v, i) =>
     (vtag c v ++ s!" additional={i}", showM (RsM.toModel (Gen.Fn.vec_reserve c i (v, w0))),
       showM (match V.rawReserve c v v.len i with | some v' => (v', w0, some ()) | none => (v, w0, none))))) out
